@@ -100,10 +100,15 @@ def runTreeP (t : Tracker) : PEvs → Result
 /-- what the program gets from its context, as far as control flow is concerned:
     * `count id path` — the number of items of the iterable of loop `id` when it is reached in the
       iteration `path` of the enclosing loops (outermost first),
-    * `fails id path` — whether the fallible instruction `id` raises its error there. -/
+    * `fails id path` — whether the fallible instruction `id` raises its error there,
+    * `cond id path` — whether the conditional `id` takes its first branch there. -/
 structure Ctx where
   count : Nat → List Nat → Nat
   fails : Nat → List Nat → Bool
+  /-- `cond id path` — which way the conditional jump `id` goes in the iteration `path`: the test of
+      an `{% if %}`, the filter of `{% for … if … %}` for the item, "the loop did not iterate" of
+      `{% for %}…{% else %}` -/
+  cond : Nat → List Nat → Bool := fun _ _ => true
 
 /-- programs in the instruction shapes of the compiler -/
 inductive P where
@@ -117,6 +122,11 @@ inductive P where
   /-- `{% for … %}`: `head` (… `PushLoop`) once, then per item `iter` (`Iterate`, store the target),
       the body, `back` (`Jump`), and `exit` (the `Iterate` that finds the end, …) once -/
   | loop (id : Nat) (head iter : List String) (body : P) (back exit : List String)
+  /-- a conditional (the instructions of the test and the `JumpIfFalse` in front of it are ordinary
+      instructions): `a` when the data says so — it ends with the `Jump` over `b` when there is an
+      else part —, otherwise `b`.  `{% if %}`/`{% elif %}`/`{% else %}`, the else part of a `for`
+      (taken when the loop did not iterate), the per-item test of a loop filter. -/
+  | branch (id : Nat) (a b : P)
   deriving Repr
 
 /-- concatenate the traces of consecutive parts up to and including the first one that failed -/
@@ -136,6 +146,7 @@ def exec (c : Ctx) : List Nat → P → List String × Bool
     chain ((head, true) ::
       ((List.range (c.count id path)).map fun i =>
         chain [(iter, true), exec c (path ++ [i]) body, (back, true)]) ++ [(exit, true)])
+  | path, .branch id a b => if c.cond id path then exec c path a else exec c path b
 
 /-- the same on costs -/
 def chainN : List (Nat × Bool) → Nat × Bool
@@ -153,6 +164,12 @@ def cost (c : Ctx) : List Nat → P → Nat × Bool
     chainN ((total head, true) ::
       ((List.range (c.count id path)).map fun i =>
         chainN [(total iter, true), cost c (path ++ [i]) body, (total back, true)]) ++ [(total exit, true)])
+  | path, .branch id a b => if c.cond id path then cost c path a else cost c path b
+
+/-- a straight-line piece of code as a program -/
+def afterP : List String → P
+  | [] => .skip
+  | i :: rest => .seq (.instr i) (afterP rest)
 
 /-- how a render of the program ends -/
 inductive Outcome where
